@@ -355,9 +355,39 @@ pub fn run(ctx: &'static Ctx) -> (&'static str, Value, Vec<&'static str>) {
         s2.nontrivial(format!("chunk{:?}", r).as_bytes());
         s2.outcome("chunk_checked");
     }
-    let stats = s1.merge(s2);
+    // record level: compressed() <=> 'BZ' follows the 4-byte prefix, for every short byte string
+    let alpha = [0x00u8, b'B', b'Z', b'h'];
+    let mut s3 = Stats::new();
+    for len in 0..=8usize {
+        for w in words(4, len) {
+            let b: Vec<u8> = w.iter().map(|i| alpha[*i as usize]).collect();
+            let exp = b.len() >= 6 && &b[4..6] == b"BZ";
+            s3.eval();
+            for (kind, r) in [("owned", Record::new(b.clone())), ("borrowed", Record::from_slice(&b))] {
+                match guarded(|| (r.compressed(), r.data().to_vec(), r.decompress().is_ok())) {
+                    Caught::Ret((c, d, dec_ok)) => {
+                        if c != exp {
+                            ctx.fail("record:compressed_flag_on_raw_bytes", || format!("{kind} record {:?}: compressed()={c} expected {exp}", b), || json!({"op": "raw_record", "bytes_hex": hex(&b)}));
+                        }
+                        if d != b {
+                            ctx.fail("record:data_changed", || format!("{:?}", b), || json!({"op": "raw_record", "bytes_hex": hex(&b)}));
+                        }
+                        if !exp && dec_ok {
+                            ctx.fail("record:decompress_of_uncompressed_record_succeeded", || format!("{:?}", b), || json!({"op": "raw_record", "bytes_hex": hex(&b)}));
+                        }
+                    }
+                    Caught::Panic(p) => ctx.fail("record:panic_on_raw_bytes", || p.clone(), || json!({"op": "raw_record", "bytes_hex": hex(&b)})),
+                }
+            }
+            if len >= 6 {
+                s3.nontrivial(&b);
+            }
+        }
+    }
+    s3.count("raw_record_strings", s3.evaluations);
+    let stats = s1.merge(s2).merge(s3);
     let cov = stats.coverage(
-        "files built by the reference container writer: 0..=4 records; record options = {raw bytes, bzip2 of payload} x size {0,1,2,5,6,100,2432,70000} x sign {+,-} x content {zeros, ramp, text, 'BZh9..' look-alike, incompressible, already-bzip2} x level {1,9}: all single records, all (thorough) / a third of reduced (quick) ordered pairs, cyclic coverings for 3 and 4 records, 900 KiB multi-block payloads; 5 header plans (incl. non-UTF-8); chunk wrappers. non-trivial = >= 2 records; distinct by content hash",
+        "files built by the reference container writer: 0..=4 records; record options = {raw bytes, bzip2 of payload} x size {0,1,2,5,6,100,2432,70000} x sign {+,-} x content {zeros, ramp, text, 'BZh9..' look-alike, incompressible, already-bzip2} x level {1,9}: all single records, all (thorough) / a third of reduced (quick) ordered pairs, cyclic coverings for 3 and 4 records, 900 KiB multi-block payloads; 5 header plans (incl. non-UTF-8); chunk wrappers; every byte string of length 0..=8 over {00,B,Z,h} as a bare record (compressed() <=> bytes 4..6 == 'BZ'). non-trivial = >= 2 records; distinct by content hash",
         true,
         json!({"record_options": full.len(), "cases": cases.len()}),
     );
@@ -369,6 +399,17 @@ pub fn run(ctx: &'static Ctx) -> (&'static str, Value, Vec<&'static str>) {
 }
 
 pub fn replay(ctx: &'static Ctx, case: &Value) {
+    if case["op"].as_str() == Some("raw_record") {
+        let b = unhex(case["bytes_hex"].as_str().unwrap_or(""));
+        let r = Record::new(b.clone());
+        let exp = b.len() >= 6 && &b[4..6] == b"BZ";
+        let got = guarded(|| r.compressed());
+        println!("replay raw record {:?}: compressed()={:?} expected {exp}", b, got);
+        if got != Caught::Ret(exp) {
+            ctx.fail("record:compressed_flag_on_raw_bytes", || format!("{:?}", b), || case.clone());
+        }
+        return;
+    }
     if case["op"].as_str() == Some("chunk") {
         let _ = run(ctx);
         return;
